@@ -1301,7 +1301,62 @@ def spelling_jobs(quick):
     return jobs
 
 
-GROUP = {"spelling": eval_spelling_group, "history": eval_history_group, "crash": eval_crash_group, "overwrite": eval_overwrite_group, "damaged": eval_damaged_group,
+# ------------------------------------------------------------------------------------------------------------
+# Part G: "restoring only the requested tasks touches only those files" with task NAMES as users write them: several letters, names that
+# share letters, a name that is the beginning of another one - through both entry points, one name and two names asked. The oracle is the
+# documented rule of BackupManager.get_task ("the file name contains task_xxx where xxx is in task_names"), written out here.
+# ------------------------------------------------------------------------------------------------------------
+TASK_TREE = {
+    "sub1/sub1_task_go_events.tsv": b"onset\tx\n1\ta\n",
+    "sub1/sub1_task_gabor_events.tsv": b"onset\tx\n1\tb\n",
+    "sub1/sub1_task_oddball_run-1_events.tsv": b"onset\tx\n1\tc\n2\td\n",
+    "sub2/sub2_task_go_events.tsv": b"onset\tx\r\n5\ta\r\n",
+    "sub2/sub2_task_gonogo_events.tsv": b"onset\tx\n7\te\n",
+    "sub2/sub2_task_rest_events.tsv": b"onset\tx\n9\tf",
+}
+UNIVERSE.update(TASK_TREE)
+TASK_ASKS = (["go"], ["gabor"], ["rest"], ["oddball"], ["go", "rest"], ["gonogo", "gabor"], ["o"], ["g", "r"], ["nosuchtask"])
+CL_TASKS = "C18.restore.only_the_files_of_the_tasks_asked"
+
+
+def eval_tasks_group(job):
+    out = []
+    base = tempfile.mkdtemp(prefix="c18t_")
+    try:
+        for ai, asked in enumerate(TASK_ASKS):
+            for via_cli in (False, True):
+                inp = {"kind": "tasks", "tree": "TASK_TREE", "asked": asked, "via_cli": via_cli}
+                root = os.path.join(base, "t%d_%d" % (ai, via_cli))
+                os.makedirs(root)
+                make_tree(root, list(TASK_TREE))
+                create_backup(root, list(TASK_TREE), "all", False)
+                for f in TASK_TREE:
+                    with open(os.path.join(root, f), "ab") as fp:
+                        fp.write(b"edited after the backup\n")
+                edited = read_state(root)
+                fails = []
+                try:
+                    do_restore(root, list(asked), via_cli)
+                    now = read_state(root)
+                    want = {}
+                    for f in TASK_TREE:
+                        # the documented rule (BackupManager.get_task): the file name contains task_xxx for a requested xxx
+                        want[f] = TASK_TREE[f] if any(("task_" + t) in os.path.basename(f) for t in asked) else edited[f]
+                    if now != want:
+                        bad = sorted(f for f in set(now) | set(want) if now.get(f) != want.get(f))
+                        fails.append((CL_TASKS, inp, {f: ("restored" if now.get(f) == TASK_TREE.get(f) else "as edited" if now.get(f) == edited.get(f)
+                                                           else "other") for f in bad},
+                                      {f: ("restored" if want.get(f) == TASK_TREE.get(f) else "as edited") for f in bad}))
+                except (Exception, SystemExit) as e:        # (argparse leaves through SystemExit)
+                    fails.append((CL_TASKS, inp, "%s: %s" % (type(e).__name__, str(e)[:200]), "the files of the tasks asked restored, nothing raised"))
+                out.append((json.dumps(inp), True, fails))
+                shutil.rmtree(root, ignore_errors=True)
+    finally:
+        shutil.rmtree(base, ignore_errors=True)
+    return out
+
+
+GROUP = {"tasks": eval_tasks_group, "spelling": eval_spelling_group, "history": eval_history_group, "crash": eval_crash_group, "overwrite": eval_overwrite_group, "damaged": eval_damaged_group,
          "hidden": eval_hidden_group}
 
 
@@ -1375,6 +1430,7 @@ def run(w: Workload):
             jobs.append({"kind": "crash", "tree": tree, "selection": selection})
             jobs.append({"kind": "overwrite", "tree": tree, "selection": selection})
             jobs.append({"kind": "damaged", "tree": tree, "selection": selection, "quick": w.quick})
+    jobs.append({"kind": "tasks"})
     # Part E: hidden / oddly named entries
     for tree in HIDDEN_TREES:
         for how in HIDDEN_HOWS:
@@ -1400,7 +1456,7 @@ def run(w: Workload):
     nproc = min(14, max(1, (os.cpu_count() or 2) - 2))
     with mp.get_context("fork").Pool(nproc) as pool:
         results = pool.map(eval_job, jobs, chunksize=1)
-    counts = {"history": 0, "crash": 0, "overwrite": 0, "damaged": 0, "hidden": 0, "spelling": 0}
+    counts = {"history": 0, "crash": 0, "overwrite": 0, "damaged": 0, "hidden": 0, "spelling": 0, "tasks": 0}
     hidden_verdicts = {}
     verdicts = {}
     damaged_verdicts = {}
@@ -1429,6 +1485,9 @@ def run(w: Workload):
     w.part("interruption of create_backup", cases=counts["crash"],
            bound="every extern call of create_backup x {before, after, truncated destination}", exhaustive=True,
            listing_after_crash=dict(sorted(verdicts.items())))
+    w.part("restore by task name", cases=counts["tasks"],
+           bound="one tree with 5 task names (two sharing letters, one the beginning of another) x %d requests (one name, two names, a "
+                 "single letter, an unknown name) x 2 entry points" % len(TASK_ASKS), exhaustive=True)
     w.part("same-name backup", cases=counts["overwrite"], bound="5 ways of asking again per tree/selection", exhaustive=True)
     w.part("complete backup damaged afterwards", cases=counts["damaged"],
            bound="per tree/selection: one stored copy deleted / renamed / dropped from the record at the first, middle, last recorded "
@@ -1489,12 +1548,14 @@ def replay(w: Workload, case: dict):
                "uses": [inp["use"]] if "use" in inp else []}
     elif kind == "damaged":
         job = {"kind": kind, "tree": inp["tree"], "selection": inp["selection"], "only": inp["damage"]}
+    elif kind == "tasks":
+        job = {"kind": kind}
     else:
         job = {"kind": kind, "tree": inp["tree"], "selection": inp["selection"]}
     for key, nontrivial, fails in eval_job(job):
         w.case(key=key, nontrivial=nontrivial)
         for clause, i2, obs, exp in fails:
-            if clause == case["clause"] and all(i2.get(k) == inp.get(k) for k in ("call_index", "mode", "how", "sequence", "damage", "route", "use")):
+            if clause == case["clause"] and all(i2.get(k) == inp.get(k) for k in ("call_index", "mode", "how", "sequence", "damage", "route", "use", "asked", "via_cli")):
                 w.fail(clause, i2, obs, exp)
 
 
